@@ -85,7 +85,7 @@ def judgeObs (lim : Limits) (toks : List String) : List String :=
 /-- which limit bounds the result of a constructor -/
 def limitOf (lim : Limits) (ctor : String) : Int :=
   match ctor with
-  | "allocate" | "aggregate" | "add_array" | "slice" | "explode" => lim.maxArray
+  | "allocate" | "aggregate" | "add_array" | "add_array_self" | "slice" | "explode" | "explode0" => lim.maxArray
   | "allocate_buffer" | "add_buffer" => lim.maxBuffer
   | "map_insert" | "map_aggregate" | "map_add" => lim.maxMapping
   | _ => lim.maxString
